@@ -103,7 +103,11 @@ pub fn parse_tls_record_with_header<'i>(i:&'i [u8], hdr:&TlsRecordHeader ) -> IR
         TlsRecordType::Alert            => many1(complete(parse_tls_message_alert))(i),
         TlsRecordType::Handshake        => many1(complete(parse_tls_message_handshake))(i),
         TlsRecordType::ApplicationData  => many1(complete(parse_tls_message_applicationdata))(i),
-        TlsRecordType::Heartbeat        => parse_tls_message_heartbeat(i, hdr.len),
+        TlsRecordType::Heartbeat        => match parse_tls_message_heartbeat(i, hdr.len) {
+            // a record is a complete unit: like the other arms, never report Incomplete
+            Err(Err::Incomplete(_)) => Err(Err::Error(make_error(i, ErrorKind::Complete))),
+            other => other,
+        },
         _                               => Err(Err::Error(make_error(i, ErrorKind::Switch)))
     }
 }
